@@ -151,30 +151,30 @@ func dictInt(d []byte, op int) (int, bool) {
 func measureCFF(f *sfnt.Font) cffSizes {
 	var buf bytes.Buffer
 	if err := f.AsCFF().Write(&buf); err != nil {
-		vio.Fatal(fmt.Sprintf("cannot encode the CFF table while tuning INDEX sizes: %v", err))
+		return cffSizes{-1, -1, -1, -1, -1} // the cycle itself will report the failing Write
 	}
 	d := buf.Bytes()
 	var s cffSizes
 	if len(d) < 4 {
-		vio.Fatal("CFF table too short")
+		return cffSizes{-1, -1, -1, -1, -1}
 	}
+	// A walk that fails (the encoder under test may be broken) leaves the remaining sizes at -1.
+	s = cffSizes{-1, -1, -1, -1, -1}
 	pos := int(d[2])
 	var err error
 	var end int
 	if s.name, end, err = indexAt(d, pos); err != nil {
-		vio.Fatal(err)
+		return s
 	}
-	tdStart := end
-	if s.topDict, end, err = indexAt(d, end); err != nil {
-		vio.Fatal(err)
+	if s.topDict, end, err = indexAt(d, end); err != nil || end > len(d) || s.topDict < 0 || end-s.topDict < 0 {
+		s.topDict = -1
+		return s
 	}
 	td := d[end-s.topDict : end]
-	_ = tdStart
 	if s.str, end, err = indexAt(d, end); err != nil {
-		vio.Fatal(err)
-	}
-	if s.gsubr, end, err = indexAt(d, end); err != nil {
-		vio.Fatal(err)
+		s.str = -1
+	} else if s.gsubr, _, err = indexAt(d, end); err != nil {
+		s.gsubr = -1
 	}
 	// The CharStrings INDEX is measured from the layout, not from its own last offset: its data ends where the
 	// next structure named in the Top DICT (or in a Font DICT) begins.  This stays right when the offsets of the
@@ -237,7 +237,7 @@ func tuneCFF(f *sfnt.Font, which string, want int) {
 	switch which {
 	case "name":
 		have := measureCFF(f).name
-		if have > want {
+		if have < 0 || have > want {
 			return
 		}
 		// every added character is one more byte; the result is not re-measured with the library's own encoder,
@@ -245,7 +245,7 @@ func tuneCFF(f *sfnt.Font, which string, want int) {
 		f.FamilyName += strings.Repeat("x", want-have)
 	case "string":
 		have := measureCFF(f).str
-		if have > want {
+		if have < 0 || have > want {
 			return
 		}
 		k := want - have
@@ -258,23 +258,25 @@ func tuneCFF(f *sfnt.Font, which string, want int) {
 		}
 		f.Copyright += strings.Repeat("c", a)
 		f.Trademark += strings.Repeat("t", k-a)
-		// measured once more one byte short of the target (an empty string that becomes non-empty may cost more
-		// than its characters), then completed; not re-measured at the target itself
-		if k >= 2 {
-			f.Copyright = f.Copyright[:len(f.Copyright)-1]
-			if got := measureCFF(f).str; got != want-1 && got < want && want-1-got < 100 {
-				f.Copyright += strings.Repeat("c", want-1-got)
-			} else if got > want-1 && got-(want-1) < len(f.Copyright) {
-				f.Copyright = f.Copyright[:len(f.Copyright)-(got-(want-1))]
+		// measured once more a few bytes short of the target (an empty string that becomes non-empty may cost more
+		// than its characters) -- at a length that is not itself next to an offset-size switch -- then completed;
+		// not re-measured at the target itself
+		short := 1
+		for (want-short+1)%256 <= 1 {
+			short++
+		}
+		if k > short {
+			f.Copyright = f.Copyright[:len(f.Copyright)-short]
+			if got := measureCFF(f).str; got >= 0 && got < want-short && want-short-got < 100 {
+				f.Copyright += strings.Repeat("c", want-short-got)
+			} else if got > want-short && got-(want-short) < len(f.Copyright) {
+				f.Copyright = f.Copyright[:len(f.Copyright)-(got-(want-short))]
 			}
-			f.Copyright += "c"
+			f.Copyright += strings.Repeat("c", short)
 		}
 	case "charstrings":
 		cur := measureCFF(f).charStrings
-		if cur < 0 {
-			vio.Fatal("no CharStrings INDEX found")
-		}
-		if cur > want {
+		if cur < 0 || cur > want {
 			return
 		}
 		type pen struct {
@@ -320,11 +322,11 @@ func tuneCFF(f *sfnt.Font, which string, want int) {
 			}
 			next := measureCFF(f).charStrings
 			if next <= cur {
-				vio.Fatal("CharStrings INDEX does not grow")
+				return
 			}
 			cur = next
 		}
-		cands := [][2]float64{{5, 7}, {200, 7}, {200, 300}, {2000, 7}, {2000, 3000}}
+		cands := [][2]float64{{5, 7}, {5, 0}, {0, 7}, {200, 7}, {200, 0}, {0, 300}, {200, 300}, {2000, 7}, {2000, 0}, {2000, 3000}}
 		p := pens[len(pens)-1]
 		for it := 0; cur != want && it < 1000; it++ {
 			accepted := false
